@@ -88,6 +88,10 @@ TrRet ==
 \* Postponing a notification never invalidates a grant (it only leaves more available to the others, and at its own
 \* late position avail is n above the real value), so it is placed right before its own Notified line - unless a Stats
 \* call is waiting for its linearization point and may have seen it.
+\* @obligation C17.rm.grant_vs_cancel : a Notified line of a request whose Cancel line came earlier (driver mode "race":
+\* the cancel channel closes while/just before another holder releases and the owner listens) is explained ONLY by
+\* ANotify - the request is a holder from here on, its owner's Release is ARelease, and every later Stats / grant is
+\* judged against the charged budget (C17.rm.balance.*, C17.rm.limit).
 LinNotify(r) ==
     /\ Observing
     /\ (Ev.op = "Notified" /\ Ev.id = r.id) \/ StatsPending
